@@ -1,0 +1,15 @@
+//go:build verif
+
+package core
+
+// VerifPipeIDsInUse returns a copy of the process-wide set of allocated pipe
+// ids, taken under the allocator's own lock.
+func VerifPipeIDsInUse() []uint32 {
+	pipeIDs.lock.Lock()
+	defer pipeIDs.lock.Unlock()
+	out := make([]uint32, 0, len(pipeIDs.used))
+	for id := range pipeIDs.used {
+		out = append(out, id)
+	}
+	return out
+}
